@@ -136,6 +136,58 @@ Section LapModel.
 End LapModel.
 
 (* ---------------------------------------------------------------------- *)
+(*  routines/diffusion_maps.hpp  compute_diffusion_matrix                   *)
+(*    for i, for j >= i:  k = distance(i,j); gk = exp(-(k*k)/width);        *)
+(*                        M(i,j) = gk; M(j,i) = gk;                         *)
+(*    p = M.colwise().sum();            M(i,j) /= p(i)*p(j)   (all i, j)    *)
+(*    p = M.colwise().sum().cwiseSqrt();M(i,j) /= p(i)*p(j)   (all i, j)    *)
+(*  exp and sqrt are VALUE ORACLES (expo, sqrto).  All indices are loop     *)
+(*  counters below n_vectors: there is no data dependent access, hence no   *)
+(*  OOB result here.  Stages are memoised through lists (Mat_Core header).  *)
+(* ---------------------------------------------------------------------- *)
+Section DmModel.
+  Context {F : Type} {Fo : FieldOps F}.
+  Local Open Scope F_scope.
+
+  Variable dist : nat -> nat -> F.
+  Variable width : F.
+  Variable expo : F -> F.
+  Variable sqrto : F -> F.
+
+  (* ScalarType k = callback.distance(begin[i], begin[j]); ScalarType gk = exp(-(k * k) / width); *)
+  Definition dm_gk (i j : nat) : F :=
+    let k := dist i j in expo ((- (k * k)) / width).
+
+  (* only pairs i <= j are evaluated; the value is written to (i,j) and (j,i) *)
+  Definition dm_kernel : mat F :=
+    fun i j => if Nat.leb i j then dm_gk i j else dm_gk j i.
+
+  (* diffusion_matrix(i, j) /= p(i) * p(j) *)
+  Definition dm_div (M : mat F) (p : vec F) : mat F := fun i j => M i j / (p i * p j).
+
+  (* the routine as a function of the entry (no memoisation) *)
+  Definition dm_p1 (n : nat) : vec F := colsum n dm_kernel.
+  Definition dm_k1 (n : nat) : mat F := dm_div dm_kernel (dm_p1 n).
+  Definition dm_p2 (n : nat) : vec F := fun j => sqrto (colsum n (dm_k1 n) j).
+  Definition dm_matrix (n : nat) : mat F := dm_div (dm_k1 n) (dm_p2 n).
+
+  (* the same, stage by stage on lists: this is what is extracted and run *)
+  Definition compute_diffusion_matrix (n : nat) : list (list F) :=
+    let K := mtab n n dm_kernel in
+    let p := vtab n (colsum n (mof K)) in
+    let K1 := mtab n n (dm_div (mof K) (vof p)) in
+    let s := vtab n (fun j => sqrto (colsum n (mof K1) j)) in
+    mtab n n (dm_div (mof K1) (vof s)).
+
+  (* the arguments handed to sqrt (observed by the check to build the oracle table) *)
+  Definition dm_sqrt_args (n : nat) : list F :=
+    let K := mtab n n dm_kernel in
+    let p := vtab n (colsum n (mof K)) in
+    let K1 := mtab n n (dm_div (mof K) (vof p)) in
+    vtab n (colsum n (mof K1)).
+End DmModel.
+
+(* ---------------------------------------------------------------------- *)
 (*  embed(): generalized_eigendecomposition(eigen_method, strategy,        *)
 (*  SmallestEigenvalues, laplacian.first, laplacian.second, d).first       *)
 (*  Dense back-end: the solver answers ALL N pairs (ascending); the site   *)
@@ -172,3 +224,49 @@ Section LapEmbed.
     | None => None
     end.
 End LapEmbed.
+
+(* ---------------------------------------------------------------------- *)
+(*  methods/diffusion_map.hpp embed():                                      *)
+(*    result = eigendecomposition_via(LargestEigenvalues, M, d + 1)         *)
+(*    embedding = result.first.leftCols(d)                                  *)
+(*    embedding.col(i) *= pow(result.second(i), t)          i < d           *)
+(*    embedding.col(i) /= result.first.col(d)               i < d           *)
+(*  Dense back-end: the oracle answers all N pairs ascending; the site      *)
+(*  `eigendecomposition_impl_dense`, largest arm, of the generated table    *)
+(*  says which columns / values form `result` (called with d + 1).          *)
+(*  pow is a value oracle  powo x t.                                        *)
+(* ---------------------------------------------------------------------- *)
+Definition dm_site : option branch :=
+  find_site "eigendecomposition.hpp" "eigendecomposition_impl_dense" true.
+
+Definition dm_skip : option nat := skip_of "LargestEigenvalues".
+
+(* views (columns of V, entries of lambda) forming `decomposition_result` for a request of d1 pairs *)
+Definition dm_select (N d1 : nat) : option (view * view) :=
+  match dm_site, dm_skip with
+  | Some b, Some skip =>
+      let n := base_eval N d1 skip (b_base b) in
+      match eval_ops d1 skip n (b_cols b), eval_ops d1 skip n (b_vals b) with
+      | Some vc, Some vv => Some (vc, vv)
+      | _, _ => None
+      end
+  | _, _ => None
+  end.
+
+Section DmEmbed.
+  Context {F : Type} {Fo : FieldOps F}.
+  Local Open Scope F_scope.
+  (* V, lam: the oracle's full answer; None = some block / coefficient access out of range *)
+  Definition dm_embedding (N d t : nat) (V : mat F) (lam : vec F) (powo : F -> nat -> F)
+    : option (mat F) :=
+    match dm_select N (d + 1) with
+    | Some (vc, vv) =>
+        if Nat.leb d (snd vc)            (* .leftCols(d) of result.first *)
+           && Nat.ltb d (snd vc)         (* result.first.col(d) *)
+           && Nat.leb d (snd vv)         (* result.second(i), i < d *)
+        then Some (fun r c =>
+                     (V r (fst vc + c)%nat * powo (lam (fst vv + c)%nat) t) / V r (fst vc + d)%nat)
+        else None
+    | None => None
+    end.
+End DmEmbed.
